@@ -441,6 +441,12 @@ def r11_withheld_change_pending(ctx):
               "withheld path records: %s" % [short(e[1]) for e in effects] if effects else "baseline is per component")
 
 
+def r20_unconditional_mutators(ctx):
+    """Mutators this property relies on always perform their effect (shared table in rules/mutators.py)."""
+    import rules.mutators as mutators
+    mutators.run_for(ctx, "C01")
+
+
 RULES = [
     ("C01.R1", "mutations are (re)sent iff changed since the client's per-entity baseline and the send rate allows", r1_resend_baseline, 4, ["default", "all-features", "server-only"]),
     ("C01.R2", "acknowledgement: recorded tick, known message, forward-only (same rule as C11.R2)", r2_ack, 6, ["default", "all-features", "server-only"]),
@@ -453,5 +459,6 @@ RULES = [
     ("C01.R9", "an acknowledgement covers exactly the entities whose data travelled in that message (same rule as C10.R1)", r9_ack_lists, 12, ["default", "all-features", "server-only"]),
     ("C01.R10", "first-sight completeness (rules/first_sight.py): which conditions discard the baseline and force a full send", r10_first_sight, 14, ["default", "all-features", "server-only"]),
     ("C01.R11", "a change withheld by the send rate stays pending (per-entity baseline must not pass it unnoticed)", r11_withheld_change_pending, 2, ["default", "all-features", "server-only"]),
+    ("C01.R20", "mutators this property relies on always perform their effect (rules/mutators.py): no early return, no guard outside the allowed set", r20_unconditional_mutators, 2, ["default", "all-features"]),
 ]
 THOROUGH_CONFIGS = ["default", "all-features", "server-only", "client-only"]
